@@ -1,7 +1,7 @@
 (* C05 proofs, part 5: invariants of whole histories, by induction over the call list. *)
 From Coq Require Import ZArith List Bool Arith Lia Permutation.
 From VF Require Import Circ.Moments Circ.Placement Circ.Insert Circ.BatchEdit Circ.History
-  Circ.MomentsProofs Circ.InsertProofs Circ.PlacementProofs Circ.CacheProofs Circ.BatchProofs.
+  Circ.MomentsProofs Circ.InsertProofs Circ.PlacementProofs Circ.CacheProofs Circ.BatchProofs Circ.OrderProofs Circ.TotalProofs.
 Import ListNotations.
 Open Scope Z_scope.
 
@@ -315,3 +315,37 @@ Proof.
   exists [IOp (wX 1 3); IOp (wM 2 3 0); IOp (wM 3 2 0)]. eexists. eexists.
   split; [vm_compute; reflexivity|]. repeat split; reflexivity.
 Qed.
+
+(* ==== no exception escapes insert half-way in a history without with_tags: D6 holds unconditionally there ==== *)
+Lemma raised_midway_false c x : cache_ok c -> raised_midway c x = false.
+Proof.
+  intros Hc. destruct x; try reflexivity; cbn [raised_midway].
+  - destruct (insert_total c index its s Hc) as [c' [z H]]. rewrite H. reflexivity.
+  - unfold append. destruct (insert_total c (Z.of_nat (length (moms c))) its s Hc) as [c' [z H]]. rewrite H. reflexivity.
+  - destruct ((0 <=? s) && (s <=? e) && (e <=? Z.of_nat (length (moms c)))) eqn:Eg; [|reflexivity]. cbn [andb].
+    unfold insert_into_range. rewrite Eg.
+    destruct (range_loop _ _ _ _) as [[ms rest] er] eqn:E.
+    assert (er = None).
+    { eapply range_loop_noerr; [|exact E]. apply andb_true_iff in Eg as [Eg1 Eg3]. apply andb_true_iff in Eg1 as [Eg1 Eg2].
+      apply Z.leb_le in Eg1, Eg2, Eg3. lia. }
+    subst er. destruct rest as [|o rest]; [reflexivity|].
+    match goal with |- context [insert ?c1 ?a ?b ?d] => destruct (insert_total c1 a b d) as [c' [z H]]; [apply none_cache_ok|rewrite H] end.
+    reflexivity.
+Qed.
+
+Theorem clean_without_with_tags h : forall c, cache_ok c -> Forall not_with_tags h -> clean c h.
+Proof.
+  induction h as [|x r IH]; intros c Hc Hh; simpl; [exact I|].
+  inversion Hh; subst. split; [apply raised_midway_false; exact Hc|].
+  apply IH; [apply step_cache_ok; assumption|assumption].
+Qed.
+
+Theorem history_sums_ok_unconditional h : Forall not_with_tags h -> sums_ok (run empty_circuit h).
+Proof.
+  intros Hh. apply history_sums_ok. apply clean_without_with_tags; [apply empty_cache_ok|exact Hh].
+Qed.
+
+(* and no modelled insert / append call of such a history raises *)
+Theorem history_insert_never_raises h i its s :
+  Forall not_with_tags h -> exists c' z, insert (run empty_circuit h) i its s = (c', inl z).
+Proof. intros Hh. apply insert_total. apply history_cache_ok. exact Hh. Qed.
